@@ -16,6 +16,8 @@ pub const PAYLOADS: &[&str] = &[
     "Option<crate::Pay>",
     "std::collections::BTreeMap<usize, Vec<Option<()>>>",
     "()",
+    "Option<Box<Vec<usize>>>",
+    "Vec<std::option::Option<Box<std::rc::Rc<crate::Pay>>>>",
 ];
 
 pub fn payload_type(kind: usize) -> TypeExpr {
@@ -34,6 +36,23 @@ pub fn payload_type(kind: usize) -> TypeExpr {
                     vec![TypeExpr::Generic(vec!["Option".into()], vec![TypeExpr::Unit])],
                 ),
             ],
+        ),
+        7 => TypeExpr::Generic(
+            vec!["Option".into()],
+            vec![TypeExpr::Generic(
+                vec!["Box".into()],
+                vec![TypeExpr::Generic(vec!["Vec".into()], vec![TypeExpr::path("usize")])],
+            )],
+        ),
+        8 => TypeExpr::Generic(
+            vec!["Vec".into()],
+            vec![TypeExpr::Generic(
+                vec!["std".into(), "option".into(), "Option".into()],
+                vec![TypeExpr::Generic(
+                    vec!["Box".into()],
+                    vec![TypeExpr::Generic(vec!["std".into(), "rc".into(), "Rc".into()], vec![TypeExpr::path("crate::Pay")])],
+                )],
+            )],
         ),
         _ => TypeExpr::Unit,
     }
@@ -55,6 +74,8 @@ fn payload_ctor(kind: usize) -> &'static str {
         3 => "vec![v, k]",
         4 => "Some(crate::Pay(v))",
         5 => "{ let mut m = std::collections::BTreeMap::new(); m.insert(v, vec![None, Some(())]); m }",
+        7 => "Some(Box::new(vec![v, k]))",
+        8 => "vec![None, Some(Box::new(std::rc::Rc::new(crate::Pay(v))))]",
         _ => "()",
     }
 }
@@ -69,6 +90,8 @@ pub fn payload_debug(kind: usize, k: usize, pos: usize, scheme: usize) -> String
         3 => format!("[{v}, {k}]"),
         4 => format!("Some(Pay({v}))"),
         5 => format!("{{{v}: [None, Some(())]}}"),
+        7 => format!("Some([{v}, {k}])"),
+        8 => format!("[None, Some(Pay({v}))]"),
         _ => "()".to_string(),
     }
 }
